@@ -334,6 +334,19 @@ def forced_backtrack_cases(rng, n):
     (calculation or join past a projection, projection past a calculation) while backtracking cannot complete —
     the source is a leaf / binary node, or the preferred engine is a third one — or completes as a no-op."""
     out = []
+    # deterministic: a join that has to pass a deduplication to reach the fixed operand's engine, for every pair of
+    # engines and fixed operands with duplicate rows / deduplicated / a projection of a deduplicated relation / one row
+    k, extra, other = enc.K(1), enc.K(3), enc.K(2)
+    for src_eng in ENGINES:
+        for mid_eng in ENGINES:
+            if src_eng == mid_eng:
+                continue
+            leaf = ("leaf", 1, src_eng, [k, other], [{k: 1, other: 5}, {k: 0, other: 6}, {k: 1, other: 5}], (0, None))
+            g = ("leaf", 2, src_eng, [k, extra], [{k: 0, extra: 1}, {k: 0, extra: 2}, {k: 1, extra: 1}, {k: 1, extra: 2}, {k: 0, extra: 1}], (0, None))
+            dd = ("un", ("dedup",), DEFAULT, g)
+            for fixed in (g, dd, ("un", ("proj", [k]), DEFAULT, dd), ("un", ("slice", 0, 1), DEFAULT, g),
+                          ("un", ("sel", ("cmp", "ge", ("ref", k), ("lit", 0))), DEFAULT, ("un", ("proj", [k]), DEFAULT, dd))):
+                out.append(("join", None, True, True, ("un", ("dedup",), DEFAULT, ("xfer", mid_eng, leaf)), fixed))
     for _ in range(n):
         cols = gen.gen_schema(rng, maxk=3, maxn=1, allow_empty=False)
         src_eng, mid_eng = rng.sample(ENGINES, 2)
@@ -342,7 +355,7 @@ def forced_backtrack_cases(rng, n):
         base = ("xfer", mid_eng, leaf) if rng.random() < 0.8 else leaf
         keep = sorted(c for c in cols if rng.random() < 0.6) or [sorted(cols)[0]]
         kind = rng.choice(["calc_past_proj", "join_past_proj", "proj_past_calc", "sort_past_sort", "calc_recreates",
-                           "partial_proj", "partial_proj"])
+                           "partial_proj", "partial_proj", "join_past_dedup"])
         pref = rng.choice([src_eng, third])
         opts = (pref, True, rng.random() < 0.5, False)
         if kind == "partial_proj":
@@ -374,6 +387,20 @@ def forced_backtrack_cases(rng, n):
             hidden = [c for c in cols if c not in keep]
             t = rng.choice(hidden) if hidden else gen.fresh_tag(rng, set(cols))
             p = ("un", ("calc", t, gen.gen_expr(rng, keep, 1, need_col=True)), opts, p)
+        elif kind == "join_past_dedup":
+            # a join that would have to pass a deduplication to reach the fixed operand's engine; the fixed operand has
+            # duplicate rows, is deduplicated, is a projection of a deduplicated relation (duplicates again), or has one row
+            k = sorted(cols)[0]
+            extra = [x for x in (enc.K(7), enc.K(8)) if x not in cols][0]     # a key column (the ColumnTag contract)
+            vals = sorted({r[k] for r in leaf[4]} | {1})[:2]
+            g = ("leaf", 2, src_eng, sorted([k, extra]), [{k: v, extra: e} for v in vals for e in (1, 2)] + [{k: vals[0], extra: 1}], (0, None))
+            fixed = rng.choice([g, ("un", ("dedup",), DEFAULT, g), ("un", ("proj", [k]), DEFAULT, ("un", ("dedup",), DEFAULT, g)),
+                                ("un", ("proj", [k]), DEFAULT, ("un", ("dedup",), DEFAULT, g)), ("un", ("slice", 0, 1), DEFAULT, g),
+                                ("un", ("sel", ("cmp", "ge", ("ref", k), ("lit", 0))), DEFAULT, ("un", ("proj", [k]), DEFAULT, ("un", ("dedup",), DEFAULT, g)))])
+            p = ("un", ("dedup",), DEFAULT, ("xfer", mid_eng, leaf))
+            if rng.random() < 0.3:
+                p = ("un", ("sel", ("cmp", "ge", ("ref", k), ("lit", -5))), DEFAULT, p)
+            p = ("join", None, True, True, p, fixed) if rng.random() < 0.8 else ("join", None, True, True, fixed, p)
         elif kind == "join_past_proj":
             p = ("un", ("proj", keep), DEFAULT, base)
             ocols = sorted({c for c in keep if rng.random() < 0.7} | {gen.fresh_tag(rng, set(cols))})
